@@ -343,7 +343,7 @@ def verify_no_custom_copy(run):
             if isinstance(n, ast.Attribute) and isinstance(n.value, ast.Name) and n.value.id == "weakref":
                 weak.append(f"fuzzylite/{m}.py:{n.lineno}")
     run.add(static("package/no_weak_references", not weak, f"weakref used at {sorted(set(weak))[:6]}: objects reached through a weak reference are shared by a deep copy" if weak
-                   else "no module of the package uses weakref: every object an engine reaches is reached through strong references and is copied (A-DEEPCOPY)", meta={"replay": RP}))
+                   else "no module of the package uses weakref: every object an engine reaches is reached through strong references and is copied (A-DEEPCOPY)", meta={"replay": RP, "soft": True}))
 
 
 def verify_history_ingredients(run):
